@@ -486,6 +486,8 @@ def p3_stream_job(run, name, prop, streams, profile="dev", timeout=2400, heap="6
             op = ["us", 0, st["xs"]] if k == 1 else ["uss", 0, st["xs"], k]
             if st.get("dense"):
                 op = ["usr", 0, st["xs"], k, st["dense"]]       # every k-th answer plus every answer inside the dense step ranges
+            if st.get("extras"):
+                op = ["ussx", 0, st["xs"], k]                   # ... with the mean() getter next to every kept answer
             f.write(json.dumps({"id": i + 1, "unit": st["unit"], "float": st.get("float", "f64"), "slots": 1, "prog": [["new", 0, st["cfg"]], op]}) + "\n")
     harness("run", inp, outp, profile)
     nlines = 0
@@ -513,6 +515,13 @@ def p3_stream_job(run, name, prop, streams, profile="dev", timeout=2400, heap="6
                 for step, o in obs:
                     f.write(json.dumps({"xs": [1] if slim else st["xs"][prev:step], "o": o}) + "\n")
                     prev = step; nlines += 1
+            elif st.get("extras"):
+                for j, (o, ex) in enumerate(obs):
+                    ln = {"xs": st["xs"][j * k:(j + 1) * k], "o": o}
+                    if isinstance(ex, dict) and "mean" in ex:
+                        ln["m"] = ex["mean"]
+                    f.write(json.dumps(ln) + "\n")
+                    nlines += 1
             else:
                 for j, o in enumerate(obs):
                     f.write(json.dumps({"xs": [1] if slim else st["xs"][j * k:(j + 1) * k], "o": o}) + "\n")
